@@ -32,6 +32,7 @@ import (
 	"context"
 	"crypto/sha256"
 	"encoding/hex"
+	"encoding/json"
 	"fmt"
 	"io"
 	"os"
@@ -535,6 +536,13 @@ func c03Run(t *testing.T, rec *kit.Rec, c c03Repo, rng *kit.RNG) {
 		if ci < nSingle && ci%readEvery != c.Idx%readEvery {
 			doReads = false
 		}
+		// partial pack failures (a pack cut between blobs: some requested blobs are still readable
+		// from the intact prefix, later ones are not) always go through the read paths - this is
+		// the class in which a reader can recover part of a file and must still report the rest
+		// (seeded change C03-1)
+		if len(cs) == 1 && cs[0].Type == "data" && cs[0].Kind == "trunc" && (cs[0].Region == "midblob-end" || cs[0].Region == "lastblob-start") {
+			doReads = true
+		}
 		if doReads {
 			// reads run on a fresh copy of the damaged state (check may have added lock files only)
 			re := e.onState(st, false)
@@ -552,6 +560,40 @@ func c03Run(t *testing.T, rec *kit.Rec, c c03Repo, rng *kit.RNG) {
 			rec.Count("fuse_mount_failed", int64(r.fuseFailed))
 			rec.Count("read_bytes_compared", r.bytes)
 			evals += int64(r.evals)
+		}
+		// a damaged (not deleted) snapshot file addressed as "latest": restore/dump latest must fail
+		// or deliver the content of the snapshot that really is the newest one - never silently
+		// fall back to an older snapshot (seeded change C03-2)
+		if len(cs) == 1 && cs[0].Type == "snapshot" && cs[0].Kind != "delete" {
+			newest, newestT := restic.ID{}, ""
+			for id, si := range b.audit.Snaps {
+				var tm struct {
+					Time time.Time `json:"time"`
+				}
+				if si.Err == nil && json.Unmarshal(si.Raw, &tm) == nil {
+					k := tm.Time.UTC().Format("2006-01-02T15:04:05.000000000")
+					if k > newestT {
+						newest, newestT = id, k
+					}
+				}
+			}
+			if want, ok := b.manifests[newest]; ok && cs[0].Name == newest.String() {
+				le := e.onState(st, false)
+				c03Seq++
+				dir := filepath.Join(le.base, fmt.Sprintf("rstlatest-%d", c03Seq))
+				le.gopts.NoCache = true
+				if _, err := le.Restore("latest", RestoreOptions{Target: dir}); err == nil {
+					probs, _ := c03CompareDir(dir, want)
+					for _, p := range probs {
+						rec.Violation("read-wrong-bytes", fmt.Sprintf("after %v: `restore latest` succeeded but %s (an older snapshot was used silently?)", cs, p), desc)
+					}
+					rec.Count("restore_latest_ok", 1)
+				} else {
+					rec.Count("restore_latest_failed", 1)
+				}
+				_ = os.RemoveAll(dir)
+				evals++
+			}
 		}
 		rec.CaseN(fmt.Sprintf("r%d/v%d/dup%v/%s/%d", c.Idx, c.Version, c.Dup, label, ci), true, evals)
 		rec.Count("sites_"+cs[0].Type, 1)
